@@ -236,6 +236,26 @@ fn walk_items(items: &[syn::Item], file: &str, inv: &mut Inv) {
     }
 }
 
+/// the variants of `enum Token`: the exhaustive `prec` stream of C04 enumerates the payload-free
+/// ones from a list in the harness; a new variant is an open obligation until that list follows
+fn token_variants(repo: &Path) -> Result<Vec<String>, String> {
+    enum_variants(repo, "src/tokenizer.rs", "Token")
+}
+
+/// `Variant` / `Variant(..)` names of a public enum (constructors the hand-written models enumerate)
+fn enum_variants(repo: &Path, file: &str, name: &str) -> Result<Vec<String>, String> {
+    let src = fs::read_to_string(repo.join(file)).map_err(|e| e.to_string())?;
+    let f = syn::parse_file(&src).map_err(|e| e.to_string())?;
+    for it in &f.items {
+        if let syn::Item::Enum(e) = it {
+            if e.ident == name {
+                return Ok(e.variants.iter().map(|v| format!("{}{}", v.ident, if matches!(v.fields, syn::Fields::Unit) { "" } else { "(..)" })).collect());
+            }
+        }
+    }
+    Err(format!("enum {name} not found in {file}"))
+}
+
 pub fn run(repo: &Path, out: &Path) -> Result<(), String> {
     let mut inv = Inv::default();
     let mut inv_ast = Inv::default();
@@ -310,6 +330,8 @@ pub fn run(repo: &Path, out: &Path) -> Result<(), String> {
         "pipeline_bodies": pipeline,
         "nondeterminism": uses_nondeterminism,
         "display_unprinted": crate::display::run(repo)?,
+        "token_variants": token_variants(repo)?,
+        "datatype_variants": enum_variants(repo, "src/ast/data_type.rs", "DataType")?,
     });
     write_if_changed(&out.join("inventory.json"), &serde_json::to_string_pretty(&cur).unwrap());
 
@@ -352,6 +374,8 @@ pub fn run(repo: &Path, out: &Path) -> Result<(), String> {
     let obl = serde_json::json!({
         "C02": mk(&["panic_sites", "panic_sites_ast", "raw_access"]),
         "C01": mk(&["display_unprinted"]),
+        "C04": mk(&["token_variants"]),
+        "C18": mk(&["datatype_variants"]),
         "C05": mk(&["err_discard", "display_unprinted"]),
         "C07": mk(&["raw_access", "no_skip_callers", "pipeline_bodies"]),
         "C08": mk(&["text_compare", "make_word_uses", "word_value_tests"]),
